@@ -50,6 +50,8 @@ def units(tier):
 def run(tier, seed, only, jobs):
     t0 = time.time()
     U = units(tier)
+    from props.common import ext_units as _ext
+    U += _ext("C18")
     if only:
         U = [x for x in U if only in x[0]]
     res = core.run_units(U, jobs=jobs)
